@@ -145,8 +145,10 @@ def power_problems(bp, pole_name, relay_numbers=()):
         box = (x - w / 2.0, y - h / 2.0, x + w / 2.0, y + h / 2.0)  # tile footprint
         if not any(geom.boxes_intersect(box, a) for a in areas):
             bad.append(("unpowered", e["entity_number"], e["name"], pos(e)))
-    # copper graph
-    parent = {p["entity_number"]: p["entity_number"] for p in ps}
+    # copper graph over ALL poles: a relay pole conducts electricity like any other pole, so it may join two
+    # parts of the grid; what is required is that the poles that are not relays end up in one network
+    allp = [e for e in ents if geom.is_pole(e["name"])]
+    parent = {p["entity_number"]: p["entity_number"] for p in allp}
 
     def find(x):
         while parent[x] != x:
@@ -157,7 +159,7 @@ def power_problems(bp, pole_name, relay_numbers=()):
     for w in wires(bp):
         if len(w) == 4 and w[1] in (5, 6) and w[0] in parent and w[2] in parent:
             parent[find(w[0])] = find(w[2])
-    comps = {find(p) for p in parent}
+    comps = {find(p["entity_number"]) for p in ps}
     if len(comps) > 1:
         bad.append(("grid-split", len(comps), len(ps)))
     return bad
